@@ -8,15 +8,17 @@ descriptors — recorded in Tables/ExtCasesGen.v and compared with the model INS
 Oracle: for every satisfaction / completed plan the implementation produces, the sizes MEASURED on
 the raw bytes (harness, no miniscript code) must not exceed the implementation's own figures;
 script_size == encode().len(); accepted scripts stay within their context's limits.
-Known findings are recognised by a key COMPUTED from the failing input: the kernel evaluates the
-model with each subset of the candidate repairs (notes/fixes/C09-*.diff) and the key names the
-smallest subset under which the figure covers the measurement."""
+An undershoot is classified with the model: the kernel evaluates the figure under all 16 settings of
+the four rule switches; if the rule set of the code as written (15) covers the measurement the
+implementation is below its own model (key ...:implementation-below-model), otherwise ...:unexplained.
+The remaining known findings are the three Plan accounting ones (keys computed from the numbers)."""
 import collections, hashlib, json, os, re
 import vlib
 
 LEVEL = "proof"
 CTX = {"bare": "CBare", "legacy": "CLegacy", "segwitv0": "CSegwit", "tap": "CTap"}
 FIXNAMES = ["thresh", "dupif", "unc", "andv"]
+AS_WRITTEN_MASK = 15
 UN = ["cast_alt", "cast_swap", "cast_check", "cast_dupif", "cast_verify", "cast_nonzero", "cast_zeronotequal",
       "cast_true", "cast_unlikely", "cast_likely"]
 BIN = ["and_b", "and_v", "or_b", "or_d", "or_c", "or_i"]
@@ -311,14 +313,8 @@ def judge(D, T):
             st["compared"] += 1
             mw = None if d["mw"] in ("ERR", "PANIC") else int(d["mw"])
             if mw is None or s["weight"] > mw:
-                if d["kind"] == "tr" and s["leaf"] == -1 and s["weight"] <= 66:
-                    # key-path spend of a tr() with a tree: Tr::max_weight_to_satisfy only looks at the leaves
-                    direct.append(("tr:keyspend-not-counted", "max_weight_to_satisfy %s < weight %d of the key-path spend (%s)" % (mw, s["weight"], d["desc"]),
-                                   dict(base, figure=mw, measured=s["weight"], quantity="max_weight_to_satisfy",
-                                        failed_clause="max_weight_to_satisfy >= weight of every satisfaction the library returns")))
-                else:
-                    need_attr.append({"what": "max_weight_to_satisfy", "field": None, "shape": dshape_coq(d), "figure": mw, "measured": s["weight"],
-                                      "input": dict(base, figure=mw, measured=s["weight"], quantity="max_weight_to_satisfy")})
+                need_attr.append({"what": "max_weight_to_satisfy", "field": None, "shape": dshape_coq(d), "figure": mw, "measured": s["weight"],
+                                  "input": dict(base, figure=mw, measured=s["weight"], quantity="max_weight_to_satisfy")})
         sat_by = {(s["mode"], s["km"], s["pm"]): s for s in d["S"] if s["status"] == "OK"}
         for p in d["P"]:
             if p["status"] == "PANIC":
@@ -400,12 +396,10 @@ def attribute(need_attr):
         if a["_u"] >= len(val):
             continue
         masks = val[a["_u"]]
-        if 0 in masks:
-            key = "undershoot:%s:implementation-below-model" % a["what"].replace(" ", "-")
-            comps = [key]
-        elif masks:
-            best = sorted(masks, key=lambda x: (bin(x).count("1"), x))[0]
-            comps = ["repair:" + FIXNAMES[i] for i in range(4) if best >> i & 1]
+        # rule set 15 = all four switches on = the code as written (ExtModel.as_written)
+        if AS_WRITTEN_MASK in masks:
+            # the model of the code covers the measurement: the implementation's figure is below its model
+            comps = ["undershoot:%s:implementation-below-model" % a["what"].replace(" ", "-")]
         else:
             comps = ["undershoot:%s:unexplained" % a["what"].replace(" ", "-")]
         res.append((a, comps, masks))
@@ -545,16 +539,6 @@ def run(rep, tier, seed, replay):
                         "msg": msg, "input": dict(b, property="C09", engine="sat | driver_ext", engine_args=[seed, n_tr], quantity=nm,
                                                   failed_clause="measured on the execution trace <= the library's figure")})
     for a, comps, masks in attribute(tr_attr):
-        if comps[0].endswith(":unexplained") and a["what"] == "stack depth" and a["ms"] and a["figure"] is not None:
-            # number pushes the rules do not count: k and n of multi (2 per fragment), k / running sum of thresh (1 per fragment)
-            over = a["measured"] - a["figure"]
-            toks = a["ms"].split()
-            n_multi = sum(1 for t in toks if t in ("multi", "sortedmulti"))
-            n_thresh = sum(1 for t in toks if t == "thresh")
-            if n_multi and over <= 2 * n_multi:
-                comps = ["exec-stack:multi-num-pushes"]
-            elif over <= 2 * n_multi + n_thresh:
-                comps = (["exec-stack:multi-num-pushes"] if n_multi else []) + ["exec-stack:thresh"]
         for key in comps:
             before = len(rep.violations)
             rep.violation(key, "%s on %s [%s, keymask %s, premask %s]" % (a["msg"], a["input"]["desc"], a["input"].get("mode"), a["input"].get("keymask"), a["input"].get("premask")),
@@ -614,7 +598,7 @@ def run(rep, tier, seed, replay):
                 "T: type-directed generator, 4 contexts, depth 0..4, bases B/V/K/W + directed corpus + near-520-byte legacy scripts; "
                 "D: generator of the sat engine (wsh, sh(wsh), sh, bare, tr 1-3 leaves) + directed corpus, 1-4 lock environments, all key subsets (<=4 keys) or 16 random, 2-3 preimage subsets, both modes, ECDSA signatures ground to the maximal 72 bytes; non-trivial = a produced satisfaction/plan whose measured sizes were compared",
         "rule_cases": len(rules), "rule_cases_panicking": panics, "tree_cases": n_tree, "descriptor_weight_cases": n_desc, "plan_cases": n_plan,
-        "theorem_class_coverage": {"scripts": int(cov.group(1)), "ext_safe_as_written": int(cov.group(2)), "ext_safe_all_repairs": int(cov.group(3))} if cov else None,
+        "theorem_class_coverage": {"scripts": int(cov.group(1)), "ext_safe_as_written": int(cov.group(2)), "ext_safe_pre_fix_rules": int(cov.group(3))} if cov else None,
         "comparisons": dict(st), "histogram": dict(hist), "samples": samples,
         "execution_traces": {"summary": tsum, "histogram": thist},
         "tie_checked_in_coq": tie_ok,
